@@ -49,9 +49,15 @@ def rand_directive(rng, a, b):
     if r < 0.82:
         return [[sign, 'REQUIRES', b]]
     if r < 0.88:
-        return [[sign, 'REQUIRES', rng.choice([a + ', ' + b, a + ', ' + rng.choice(MET)])]]
-    if r < 0.96:
+        return [[sign, 'REQUIRES', rng.choice([a + ', ' + b, a + ', ' + rng.choice(MET), b + ', ' + a])]]
+    if r < 0.93:
         return [[sign, 'IGNORE_WANT', None]]
+    if r < 0.97:
+        # a flag other than SKIP whose effect is visible: wants written with an ellipsis
+        return [[sign, 'ELLIPSIS', None]]
+    if rng.random() < 0.5:
+        # several effects in one comment
+        return [[sign, 'REQUIRES', a], [rng.choice(['+', '-']), 'REQUIRES', b]]
     return [[sign, 'SKIP', None], [rng.choice(['+', '-']), 'REQUIRES', rng.choice([a, b])]]
 
 
@@ -95,9 +101,13 @@ def gen_history(rng, pfx, modname, n_events):
                     cands.append('last')
             if W.value_repr(st):
                 cands.append('repr')
+            if form in ('emit', 'print'):
+                # (expression statements: split off as a part of their own, so the
+                # want is about this statement's line alone)
+                cands.append('ell')
             if cands:
                 st['want'] = rng.choice(cands)
-                if rng.random() < 0.3:
+                if rng.random() < 0.3 and st['want'] != 'ell':
                     st['want_corrupt'] = rng.choice(['replace', 'append', 'prepend', 'droplast'])
         steps.append(st)
         i += 1
@@ -123,7 +133,8 @@ def generate(rng, tier):
     elif r < 0.3:
         env['argv'] = ['xdsim']
     env['listing_seed'] = rng.randint(0, 99)
-    defaults = rng.choice([None, None, None, {'SKIP': True}, {'IGNORE_WANT': True}, {'SKIP': False}])
+    defaults = rng.choice([None, None, None, None, {'SKIP': True}, {'IGNORE_WANT': True}, {'SKIP': False}, {'ELLIPSIS': False},
+                           {'SKIP': True, 'ELLIPSIS': False}])
     how_defaults = rng.choice(['config', 'cli']) if defaults else None
     items = []
     modname = 'simpkg.m0'
